@@ -56,7 +56,8 @@ class ImpactedPartition:
             self.logicalPartLogID)
         out["Primary Partition Name"] = self.lpName
 
-        for i in range(self.targetLPcount):
-            out["Target LP"] = "0x{:04X}".format(self.targetLPs[i])
+        if self.targetLPcount:
+            out["Target LP"] = ", ".join(
+                "0x{:04X}".format(lp) for lp in self.targetLPs)
 
         return out
